@@ -190,26 +190,37 @@ HISTORY_BAD = []
 def quad_estimate(gc, m1, m2, m4s):
     g = make_geom(gc)
     res = []
+    ntot = 0
     for m4 in m4s:
         u1 = (np.arange(m1) + 0.5) / m1
         u2 = (np.arange(m2) + 0.5) / m2
         u3 = np.array([0.25, 0.75])
         u4 = (np.arange(m4) + 0.5) / m4
-        U1, U2, U3, U4 = [a.ravel() for a in np.meshgrid(u1, u2, u3, u4, indexing="ij")]
-        with np.errstate(all="ignore"):
-            g.throw(np.stack([U1, U2, U3, U4]))
-            n = int(g.event_mask.sum())
-            r = g.mcintegral(np.full(n, np.inf), np.cos(gc["cone"]) * (1 - 1e-15), np.ones(n), 0.0, 1.0, 1.0)
-            if m4 == m4s[0]:
-                # history on one throw (compute() integrates twice per throw): a call with a narrower cone in between
-                # must not change what the next call returns
-                g.mcintegral(np.full(n, np.inf), np.cos(0.5 * gc["cone"]), np.ones(n), 0.0, 1.0, 1.0)
-                r2 = g.mcintegral(np.full(n, np.inf), np.cos(gc["cone"]) * (1 - 1e-15), np.ones(n), 0.0, 1.0, 1.0)
-                if float(r2[1]) != float(r[1]):
-                    HISTORY_BAD.append((float(r[1]), float(r2[1])))
-        res.append(float(r[1]))
+        # the lattice is pushed through throw/mcintegral in slabs of u1 (bounded memory); the equal-weight mean of
+        # the slab means is the mean over the whole lattice because all slabs have the same number of points
+        per = max(1, int(2_000_000 // (m2 * 2 * m4)))
+        acc = 0.0
+        nsl = 0
+        first = None
+        for s0 in range(0, m1, per):
+            U1, U2, U3, U4 = [a.ravel() for a in np.meshgrid(u1[s0 : s0 + per], u2, u3, u4, indexing="ij")]
+            with np.errstate(all="ignore"):
+                g.throw(np.stack([U1, U2, U3, U4]))
+                n = int(g.event_mask.sum())
+                r = g.mcintegral(np.full(n, np.inf), np.cos(gc["cone"]) * (1 - 1e-15), np.ones(n), 0.0, 1.0, 1.0)
+                if m4 == m4s[0] and s0 == 0:
+                    # history on one throw (compute() integrates twice per throw): a call with a narrower cone in
+                    # between must not change what the next call returns
+                    g.mcintegral(np.full(n, np.inf), np.cos(0.5 * gc["cone"]), np.ones(n), 0.0, 1.0, 1.0)
+                    r2 = g.mcintegral(np.full(n, np.inf), np.cos(gc["cone"]) * (1 - 1e-15), np.ones(n), 0.0, 1.0, 1.0)
+                    if float(r2[1]) != float(r[1]):
+                        HISTORY_BAD.append((float(r[1]), float(r2[1])))
+            acc += float(r[1]) * len(U1)
+            nsl += len(U1)
+        res.append(acc / nsl)
+        ntot = nsl
     # error of the equal-weight rule in the singular dimension behaves like m4^(-1/2): Richardson for ratio 4
-    return 2 * res[-1] - res[-2], res, len(U1)
+    return 2 * res[-1] - res[-2], res, ntot
 
 
 def judge_quadrature(gc, levels, m4s):
@@ -221,7 +232,7 @@ def judge_quadrature(gc, levels, m4s):
         ext.append(q)
         npts += n
     delta = abs(ext[-1] - ext[-2]) if len(ext) > 1 else abs(ext[-1]) * 1e-2
-    tol = 3 * delta + 2e-4 * A + Aerr
+    tol = 3 * delta + 1e-3 * A + Aerr  # (floor calibrated on the thorough lattice: worst residual of the extrapolated equal-weight rule on the unchanged tree is 3.3e-4, at 100 m altitude and a 0.1 deg cone)
     out = []
     if not (abs(ext[-1] - A) <= tol):
         out.append(("quadrature_converges_to_aperture", "mcintegral geo-only", float(A), float(ext[-1])))
